@@ -371,6 +371,13 @@ def build_request(ex, meta):
             r["slice_tail"] = o["slice_tail"].replace("~", " ")
     if o.get("slice_opt_return") == "1":
         r["slice_opt_return"] = True
+    if o.get("opaque_into") == "1":
+        r["opaque_into"] = True
+    if "slice_group" in o:
+        r["slice_group"] = o["slice_group"].replace("~", " ")
+        for k in ("slice_sig", "slice_tail"):
+            if k in o:
+                r[k] = o[k].replace("~", " ")
     if "slice_from" in o or "slice_to" in o:
         r["slice"] = {"from": o.get("slice_from", "").replace("~", " ") or None,
                       "to": o.get("slice_to", "").replace("~", " ") or None,
@@ -472,6 +479,7 @@ class Assembled:
         self.trusted = []
         self.applied = []
         self.panic_sites = []
+        self.lost = []
 
 
 def assemble(unit, workdir, vacuity_twins=False):
@@ -498,7 +506,11 @@ def assemble(unit, workdir, vacuity_twins=False):
     extracts = [s[1] for s in unit["segments"] if s[0] == "extract"]
     reqs = [build_request(ex, meta) for ex in extracts]
     items = run_extractor(reqs, workdir)
-    errs = [it["error"] for it in items if it.get("error")]
+    # a contracted function that no longer exists is dropped from the file (the rest of the unit is still decided; the property check
+    # reports the missing function as undecided through the baseline); every other extraction error stops the unit
+    def _lost_fn(ex, it):
+        return ex["kind"] == "fn" and (it.get("error") or "").startswith("LOST-ANCHOR fn ") and " not found in " in it["error"]
+    errs = [it["error"] for ex, it in zip(extracts, items) if it.get("error") and not _lost_fn(ex, it)]
     if errs:
         raise UnitError("; ".join(errs))
     out = []
@@ -521,6 +533,10 @@ def assemble(unit, workdir, vacuity_twins=False):
             emit(seg)
             continue
         ex, item = next(it_iter)
+        if item.get("error"):
+            emit(f"// ---- LOST {ex['path']}: {item['error']}")
+            A.lost.append(ex["path"])
+            continue
         A.items.append((ex, item))
         src = f"{item['file']}:{item.get('line')}"
         if ex["kind"] in ("struct", "enum", "const", "type"):
